@@ -55,14 +55,14 @@ class Log:
         return not self.end.startswith("exit 0")
 
 
-def run_scen(scen_bin, vchild, cases, scratch, env_extra=None):
+def run_scen(scen_bin, vchild, cases, scratch, env_extra=None, prefix=None):
     """Run cases through one scen process; yields (case, Log)."""
     env = dict(os.environ)
     env.update(SAN_ENV)
     if env_extra:
         env.update(env_extra)
     inp = "".join("%s %s\n" % (c.id, c.script) for c in cases)
-    p = subprocess.Popen([scen_bin, vchild, scratch], stdin=subprocess.PIPE, stdout=subprocess.PIPE,
+    p = subprocess.Popen((prefix or []) + [scen_bin, vchild, scratch], stdin=subprocess.PIPE, stdout=subprocess.PIPE,
                          stderr=subprocess.DEVNULL, env=env)
     out, _ = p.communicate(inp.encode())
     logs = {}
@@ -117,7 +117,10 @@ def crash_key(log):
     """Stable class for a crashed runner."""
     s = log.stderr
     kind = "crash"
-    for pat, k in (("AddressSanitizer: heap-use-after-free", "asan-uaf"),
+    for pat, k in (("Invalid read of size", "memcheck-invalid-read"), ("Invalid write of size", "memcheck-invalid-write"),
+                   ("uninitialised value", "memcheck-uninitialised"), ("uninitialised byte", "memcheck-uninitialised"),
+                   ("Invalid free", "memcheck-invalid-free"), ("Mismatched free", "memcheck-invalid-free"),
+                   ("AddressSanitizer: heap-use-after-free", "asan-uaf"),
                    ("AddressSanitizer: heap-buffer-overflow", "asan-heap-overflow"),
                    ("AddressSanitizer: stack-buffer-overflow", "asan-stack-overflow"),
                    ("AddressSanitizer: attempting double-free", "asan-double-free"),
@@ -138,13 +141,15 @@ def crash_key(log):
 
 # ---------------------------------------------------------------- worker pool
 def _worker(args):
-    (modname, prop, tier, seed, widx, nworkers, scen_bin, vchild, replay_cases) = args
+    (modname, prop, tier, seed, widx, nworkers, scen_bin, vchild, replay_cases, opts) = args
     mod = __import__(modname)
     eng = mod.ENGINE
     if replay_cases is not None:
         cases = [Case(c["id"], c["script"], c.get("meta"), c.get("sig")) for c in replay_cases]
     else:
         cases = eng.cases(prop, tier, seed)
+    if opts.get("limit"):
+        cases = cases[:opts["limit"]]
     mine = cases[widx::nworkers]
     scratch = os.path.join(BUILD, "run", "%d.%d" % (os.getppid(), widx))
     stats = {"evaluations": 0, "nontrivial_sigs": set(), "obs": {}, "inconclusive": 0, "samples": []}
@@ -155,7 +160,7 @@ def _worker(args):
         retry = []
         if not pending:
             break
-        for c, lg in run_scen(scen_bin, vchild, pending, scratch):
+        for c, lg in run_scen(scen_bin, vchild, pending, scratch, prefix=opts.get("prefix")):
             if lg.end in ("watchdog", "missing") and attempt == 0:
                 retry.append(c)
                 continue
@@ -185,9 +190,9 @@ def _worker(args):
     return stats, [(v.prop, v.key, v.msg, v.case, v.log) for v in viols]
 
 
-def run_engine(modname, prop, tier, seed, scen_bin, vchild, replay_cases=None):
+def run_engine(modname, prop, tier, seed, scen_bin, vchild, replay_cases=None, opts=None):
     nw = NWORKERS if replay_cases is None else min(NWORKERS, max(1, len(replay_cases)))
-    args = [(modname, prop, tier, seed, i, nw, scen_bin, vchild, replay_cases) for i in range(nw)]
+    args = [(modname, prop, tier, seed, i, nw, scen_bin, vchild, replay_cases, opts or {}) for i in range(nw)]
     with multiprocessing.Pool(nw) as pool:
         results = pool.map(_worker, args)
     total = {"evaluations": 0, "nontrivial_sigs": set(), "obs": {}, "inconclusive": 0, "samples": []}
